@@ -313,3 +313,444 @@ class C03(Prop):
 REGISTRY = {}
 for cls in (C03,):
     REGISTRY[cls.id] = cls()
+
+
+# =========================================================================== shared generators
+def all_partitions(n, maxpart):
+    """all compositions of n into parts of 1..maxpart"""
+    if n == 0:
+        return [[]]
+    out = []
+    for k in range(1, min(maxpart, n) + 1):
+        for rest in all_partitions(n - k, maxpart):
+            out.append([k] + rest)
+    return out
+
+
+def script_of(parts):
+    return ",".join("c%d" % k for k in parts) if parts else "-"
+
+
+def keypairs(ctx, n):
+    sks = [ctx.rbytes(32) for _ in range(n)]
+    cs_ = [Case("xpub", k=k) for k in sks]
+    vlib.run_impl(ctx.bin, cs_)
+    return [(sk, c.result["out"]) for sk, c in zip(sks, cs_)]
+
+
+def ok_eq(P, what="round trip"):
+    def f(r):
+        if r["code"] != 0 or r["out"] != P:
+            return ("%s: Ok with exactly the original %d bytes" % (what, len(P)), r["outcome"] + " out=" + r["out"][:40].hex())
+        return None
+    return f
+
+
+def ok_only(what="operation succeeds"):
+    def f(r):
+        return None if r["code"] == 0 else (what, r["outcome"])
+    return f
+
+
+def roundtrip_chunk_cases(ctx, full):
+    """encrypt with every read partition, decrypt with assorted schedules (chunk hooks, tiny chunk sizes)"""
+    rng = ctx.rng
+    encs = []
+    for cs in ([1, 2, 3, 4] if full else [2, 3]):
+        key = ctx.rbytes(32)
+        aad = rng.choice([b"", b"egk\x20"])
+        for n in range(0, (8 if full else 6)):
+            P = ctx.rbytes(n)
+            for parts in all_partitions(n, cs):
+                ws = rng.choice(["-", "c1,c1,c1,c3", "c3,c5,c1"])
+                encs.append((P, Case("enc_chunks", key=key, aad=aad, cs=cs, data=P, rs=script_of(parts), ws=ws,
+                                     oracle=ok_only("encryption over a conforming source/sink succeeds"),
+                                     tags=["enc", "parts=%d" % len(parts)])))
+    vlib.run_impl(ctx.bin, [c for _, c in encs])
+    out = []
+    for P, c in encs:
+        out.append(c)
+        F = c.result["out"]
+        if c.result["code"] != 0:
+            continue
+        rs = rng.choice(["-", "c1,c1,c1,c1,c1,c1,c1", "c5,c1,c7,c2", "c16,c1", "c3,c3,c3,c3,c3,c3,c3,c3,c3,c3,c3,c3"])
+        ws = rng.choice(["-", "c1,c1", "c2,c1,c1"])
+        out.append(Case("dec_chunks", key=c.a["key"], aad=c.a["aad"], cs=c.a["cs"], data=F, rs=rs, ws=ws,
+                        oracle=ok_eq(P), tags=["dec"]))
+    return out
+
+
+BIG = 65536
+
+
+def api_roundtrip_cases(ctx, full, mode):
+    """public API at the production chunk size; mode = 'key' | 'pass'"""
+    rng = ctx.rng
+    lens = [0, 1, BIG - 1, BIG, BIG + 1] + ([2 * BIG - 1, 2 * BIG, 2 * BIG + 1] if full else [])
+    if not full:
+        lens = [0, 1, BIG + 1]
+    scheds = ["-", "c1", "c4096", "c65536,c1"]
+    (s, spk), (r, rpk), (e, epk) = keypairs(ctx, 3)
+    encs = []
+    for n in lens:
+        P = ctx.rbytes(n)
+        for rs in (scheds if full else [rng.choice(scheds)]):
+            if rs == "c4096":
+                rs = ",".join(["c4096"] * (n // 4096 + 2))
+            if mode == "key":
+                pk = ctx.rbytes(32)
+                c = Case("key_enc", s=s, spk=spk, r=rpk, e=e, epk=epk, pk=pk, data=P, rs=rs,
+                         oracle=ok_only("key encryption succeeds"), tags=["enc", "len=%d" % n])
+            else:
+                c = Case("pass_enc", pw=rng.choice(PASSWORDS), salt=ctx.rbytes(32), data=P, rs=rs,
+                         oracle=ok_only("password encryption succeeds"), tags=["enc", "len=%d" % n])
+            encs.append((P, c))
+    vlib.run_impl(ctx.bin, [c for _, c in encs])
+    out = []
+    for P, c in encs:
+        out.append(c)
+        if c.result["code"] != 0:
+            continue
+        F = c.result["out"]
+        rs = rng.choice(["-", "c1,c1,c1,c1,c1", "c100,c31,c1,c50000"])
+        ws = rng.choice(["-", "c1000", "c1,c65535"])
+        if mode == "key":
+            def orc(res, P=P):
+                if res["code"] != 0 or res["out"] != P:
+                    return ("decrypt(encrypt(P)) = P", res["outcome"] + " |out|=%d" % len(res["out"]))
+                if res["extra"] != spk:
+                    return ("decryption reports the sender's static public key", "sender=" + res["extra"].hex())
+                return None
+            out.append(Case("key_dec", r=r, rpk=rpk, data=F, rs=rs, ws=ws, oracle=orc, tags=["dec", "len=%d" % len(P)]))
+        else:
+            out.append(Case("pass_dec", pw=c.a["pw"], data=F, rs=rs, ws=ws, oracle=ok_eq(P), tags=["dec", "len=%d" % len(P)]))
+    return out
+
+
+PASSWORDS = [b"", b"a", b"hackme", b"p\xc3\xa4ssw\xc3\xb6rd\xe2\x9c\x93", b"\x00\xff", b"x" * 65, b"y" * 200]
+
+
+class C01(Prop):
+    id = "C01"
+    rule = ("cases: chunk-hook encryptions of every plaintext length 0..5(7) under EVERY partition into reads of 1..cs "
+            "bytes (cs 2,3(,1,4)) with partial writes, each decrypted under another schedule; public-API key-mode "
+            "encryptions at lengths 0,1,65537 (thorough: 65535,65536,131071..131073) under assorted read schedules, each "
+            "decrypted; non-trivial = every case (no two share input+schedule)")
+    assumptions = ["X25519 commutativity (dh_comm) is a hypothesis of the key-mode round-trip theorem",
+                   "AEAD/hash laws proved for the Gallina RFC instance"]
+
+    def cases(self, ctx):
+        return roundtrip_chunk_cases(ctx, ctx.thorough()) + api_roundtrip_cases(ctx, ctx.thorough(), "key")
+
+    def search_cases(self, ctx):
+        c2 = Ctx(ctx.pid, "thorough", ctx.seed + 7)
+        c2.bin = ctx.bin
+        out = roundtrip_chunk_cases(c2, True)
+        # the implementation's own randomness (no injection)
+        (s, spk), (r, rpk) = keypairs(c2, 2)
+        encs = [Case("key_enc", s=s, spk=spk, r=rpk, data=c2.rbytes(n)) for n in (0, 1, 100, 65537)]
+        vlib.run_impl(ctx.bin, encs)
+        for c in encs:
+            if c.result["code"] == 0:
+                out.append(Case("key_dec", r=r, rpk=rpk, data=c.result["out"], oracle=ok_eq(c.a["data"])))
+        return out
+
+
+class C02(Prop):
+    id = "C02"
+    rule = ("cases: password-mode encryptions (7 passwords incl. empty, non-ASCII, >64 bytes; random salts; lengths "
+            "0,1,65537 (+65535,65536,2 chunks)) decrypted with the same password under other schedules, and every file "
+            "decrypted with every OTHER password (must fail, nothing released); non-trivial = all")
+    assumptions = ["scrypt at N=32768 is not evaluated in Coq: the model takes the derived key from a table the harness "
+                   "fills by calling the implementation's scrypt with the documented constants (C18 ties that scrypt to RFC 7914)",
+                   "wrong-password rejection is proved under the no-forgery-in-run premise"]
+
+    def cases(self, ctx):
+        out = api_roundtrip_cases(ctx, ctx.thorough(), "pass")
+        files = [c for c in out if c.op == "pass_enc" and c.result and c.result["code"] == 0]
+        sel = files if ctx.thorough() else files[:3]
+        for c in sel:
+            for pw in PASSWORDS:
+                if pw == c.a["pw"]:
+                    continue
+
+                def orc(res):
+                    if res["code"] == 0:
+                        return ("a different password is rejected", "ok")
+                    if res["out"]:
+                        return ("a rejected password releases no plaintext", "out=" + res["out"][:32].hex())
+                    return None
+                if len(c.result["out"]) > 5000 and not ctx.thorough():
+                    continue
+                out.append(Case("pass_dec", pw=pw, data=c.result["out"], oracle=orc, tags=["wrong-password"]))
+        return out + roundtrip_chunk_cases(ctx, False)[:120]
+
+
+class C06(Prop):
+    id = "C06"
+    rule = ("cases: exact output bytes of key/password encryption (injected ephemeral, payload key, salt) compared with "
+            "the Gallina transcription of the documented format over the RFC specifications, under all read partitions "
+            "at small chunk sizes and selected schedules at 65536; Noise-AEAD nonce layout at counters across the 64-bit "
+            "range; handshake/HKDF components; non-trivial = all")
+    assumptions = ["the Gallina RFC specifications are validated by the RFCs' own test vectors (Spec/*Kat.v)"]
+
+    def cases(self, ctx):
+        rng = ctx.rng
+        out = roundtrip_chunk_cases(ctx, ctx.thorough())[: (4000 if ctx.thorough() else 400)]
+        out += api_roundtrip_cases(ctx, ctx.thorough(), "key") + api_roundtrip_cases(ctx, False, "pass")
+        key = ctx.rbytes(32)
+        ns = [0, 1, 255, 256, 2 ** 32 - 1, 2 ** 32, 2 ** 63, 2 ** 64 - 2] + [rng.getrandbits(64) % (2 ** 64 - 1) for _ in range(40 if ctx.thorough() else 8)]
+        for n in ns:
+            ad, pt = ctx.rbytes(rng.randrange(0, 20)), ctx.rbytes(rng.randrange(0, 40))
+            c = Case("nseal", key=key, n=n, ad=ad, x=pt, tags=["nonce"])
+            out.append(c)
+        (s, spk), (r, rpk), (e, epk) = keypairs(ctx, 3)
+        for _ in range(4 if ctx.thorough() else 2):
+            out.append(Case("noise_enc", s=s, spk=spk, r=rpk, e=e, epk=epk, prologue=bytes([0x65, 0x67, 0x6b, 0x10]),
+                            payload=ctx.rbytes(32), tags=["noise"]))
+            out.append(Case("hkdfn", ck=ctx.rbytes(32), ikm=ctx.rbytes(rng.choice([0, 32])), tags=["hkdfn"]))
+        return out
+
+
+class C09(Prop):
+    id = "C09"
+    rule = ("cases: every length 0..200 (thorough 0..400) of all-zero / all-0xff / random / authentic-prefix content at "
+            "each binary surface (chunk loop, key file, password file, Noise handshake message, AEAD ciphertext), hostile "
+            "length fields; outcome must be a value (Ok/Err), never panic/abort; non-trivial = all but the empty input")
+    assumptions = ["termination of the real process is observed with a watchdog, not proved",
+                   "keyring/argv surfaces are covered by C17 / the CLI parse model"]
+
+    def cases(self, ctx):
+        rng = ctx.rng
+        N = 400 if ctx.thorough() else 200
+
+        def nopanic(r):
+            if r["code"] in (0,) or (1 < r["code"] < 900):
+                return None
+            return ("an error value or a normal result, never a panic/abort", r["outcome"])
+        out = []
+        (s, spk), (r, rpk), (e, epk) = keypairs(ctx, 3)
+        auth = [Case("key_enc", s=s, spk=spk, r=rpk, e=e, epk=epk, pk=ctx.rbytes(32), data=ctx.rbytes(150)),
+                Case("pass_enc", pw=b"pw", salt=ctx.rbytes(32), data=ctx.rbytes(150)),
+                Case("noise_enc", s=s, spk=spk, r=rpk, e=e, epk=epk, prologue=b"egk\x10", payload=ctx.rbytes(32))]
+        key = ctx.rbytes(32)
+        auth.append(Case("enc_chunks", key=key, aad=b"", cs=64, data=ctx.rbytes(150)))
+        auth.append(Case("seal", key=key, nonce=bytes(12), ad=b"ad", x=ctx.rbytes(100)))
+        vlib.run_impl(ctx.bin, auth)
+        KF, PF, NM, CF, CT = [c.result["out"] for c in auth]
+        for n in range(0, N + 1):
+            kinds = [bytes(n), b"\xff" * n, ctx.rbytes(n)]
+            tag = ["trivial"] if n == 0 else []
+            for content in (kinds if (ctx.thorough() or n % 8 == 0 or n < 24) else kinds[2:]):
+                out.append(Case("dec_chunks", key=key, aad=b"", cs=64, data=content, oracle=nopanic, tags=tag + ["junk"]))
+                out.append(Case("noise_dec", r=r, rpk=rpk, prologue=b"egk\x10", msg=content, oracle=nopanic, tags=tag + ["junk"]))
+                if n <= 64 or n % 8 == 0:
+                    out.append(Case("open", key=key, nonce=bytes(12), ad=b"", x=content, oracle=nopanic, tags=tag + ["junk"]))
+                    out.append(Case("nopen", key=key, n=rng.getrandbits(40), ad=b"", x=content, oracle=nopanic, tags=tag + ["junk"]))
+            # authentic prefixes reach deeper code
+            out.append(Case("key_dec", r=r, rpk=rpk, data=KF[:n], oracle=nopanic, tags=tag + ["auth-prefix"]))
+            out.append(Case("pass_dec", pw=b"pw", data=PF[:n], oracle=nopanic, tags=tag + ["auth-prefix"]))
+            out.append(Case("noise_dec", r=r, rpk=rpk, prologue=b"egk\x10", msg=NM[:n], oracle=nopanic, tags=tag + ["auth-prefix"]))
+            out.append(Case("dec_chunks", key=key, aad=b"", cs=64, data=CF[:n], oracle=nopanic, tags=tag + ["auth-prefix"]))
+            if n <= len(CT):
+                out.append(Case("open", key=key, nonce=bytes(12), ad=b"ad", x=CT[:n], oracle=nopanic, tags=tag + ["auth-prefix"]))
+            if n % 16 == 0:
+                out.append(Case("key_dec", r=r, rpk=rpk, data=KF[:4] + ctx.rbytes(n), oracle=nopanic, tags=["magic+junk"]))
+                out.append(Case("pass_dec", pw=b"pw", data=PF[:36] + ctx.rbytes(n), oracle=nopanic, tags=["hdr+junk"]))
+        for v in (0, 64, 65, 2 ** 31, 2 ** 32 - 1):
+            x = bytearray(CF)
+            x[12:16] = v.to_bytes(4, "big")
+            out.append(Case("dec_chunks", key=key, aad=b"", cs=64, data=bytes(x), oracle=nopanic, tags=["len-field"]))
+            y = bytearray(KF)
+            y[132 + 12:132 + 16] = v.to_bytes(4, "big")
+            out.append(Case("key_dec", r=r, rpk=rpk, data=bytes(y), oracle=nopanic, tags=["len-field"]))
+        big = ctx.rbytes(65536 + 100)
+        out.append(Case("noise_dec", r=r, rpk=rpk, prologue=b"egk\x10", msg=big[:65536], oracle=nopanic, tags=["too-long"]))
+        out.append(Case("noise_dec", r=r, rpk=rpk, prologue=b"egk\x10", msg=big[:65535], oracle=nopanic, tags=["max-len"]))
+        return out
+
+
+def fault_variants(base_trace, rs, ws, fs):
+    """single-fault scripts derived from a fault-free run's trace: fail the k-th read/write/flush"""
+    nr = len([t for t in base_trace if t[0] in (1, 2)])
+    nw = len([t for t in base_trace if t[0] in (3, 4)])
+    nf = len([t for t in base_trace if t[0] in (5, 6)])
+    out = []
+
+    def pad(script, n, fill):
+        items = [] if script == "-" else script.split(",")
+        while len(items) < n:
+            items.append(fill)
+        return items
+    for k in range(nr):
+        for kind in ("i", "o", "z"):
+            it = pad(rs, k, "c70000")
+            it = it[:k] + [kind] + it[k:]
+            out.append((",".join(it), ws, fs, "read-%s@%d" % (kind, k)))
+    for k in range(nw):
+        for kind in ("i", "o", "z"):
+            it = pad(ws, k, "c70000")
+            it = it[:k] + [kind] + it[k:]
+            out.append((rs, ",".join(it), fs, "write-%s@%d" % (kind, k)))
+    for k in range(nf):
+        for kind in ("i", "o"):
+            it = pad(fs, k, "k")
+            it = it[:k] + [kind] + it[k:]
+            out.append((rs, ws, ",".join(it), "flush-%s@%d" % (kind, k)))
+    return out
+
+
+class C10(Prop):
+    id = "C10"
+    rule = ("cases: for base runs (both directions, chunk hooks at cs 2..3 with assorted partitions, and both file modes "
+            "through the public API) the k-th read / write / flush call is made to fail for EVERY k (Interrupted, other "
+            "error, zero-length), plus random multi-fault scripts; observation = outcome class, bytes written, full I/O "
+            "trace; non-trivial = runs containing at least one fault")
+    assumptions = ["std::io::Read::read_exact / Write::write_all default loops are transcribed in IO.v"]
+
+    def base(self, ctx):
+        rng = ctx.rng
+        key = ctx.rbytes(32)
+        bases = []
+        for cs in (2, 3):
+            for n in ((0, 1, 3, 5) if not ctx.thorough() else range(0, 7)):
+                P = ctx.rbytes(n)
+                parts = rng.choice(all_partitions(n, cs))
+                bases.append(Case("enc_chunks", key=key, aad=b"", cs=cs, data=P, rs=script_of(parts), ws=rng.choice(["-", "c5,c3"])))
+        (s, spk), (r, rpk), (e, epk) = keypairs(ctx, 3)
+        bases.append(Case("key_enc", s=s, spk=spk, r=rpk, e=e, epk=epk, pk=ctx.rbytes(32), data=ctx.rbytes(10)))
+        bases.append(Case("pass_enc", pw=b"pw", salt=ctx.rbytes(32), data=ctx.rbytes(10)))
+        vlib.run_impl(ctx.bin, bases)
+        decs = []
+        for c in bases:
+            F = c.result["out"]
+            if c.op == "enc_chunks":
+                decs.append((c.a["data"], Case("dec_chunks", key=key, aad=b"", cs=c.a["cs"], data=F, rs=rng.choice(["-", "c7,c9,c1,c30"]))))
+            elif c.op == "key_enc":
+                decs.append((c.a["data"], Case("key_dec", r=r, rpk=rpk, data=F)))
+            else:
+                decs.append((c.a["data"], Case("pass_dec", pw=b"pw", data=F)))
+        vlib.run_impl(ctx.bin, [d for _, d in decs])
+        return [(None, c) for c in bases] + decs
+
+    def cases(self, ctx):
+        out = []
+        for P, b in self.base(ctx):
+            good = b.result
+            enc_side = b.op in ("enc_chunks", "key_enc", "pass_enc")
+            b.tags = ["fault-free", "trivial"]
+            out.append(b)
+            variants = fault_variants(good["trace"], b.a.get("rs", "-"), b.a.get("ws", "-"), b.a.get("fs", "-"))
+            if not ctx.thorough() and len(variants) > 60:
+                variants = ctx.rng.sample(variants, 60)
+            for rs, ws, fs, tag in variants:
+                a = dict(b.a)
+                a.update(rs=rs, ws=ws, fs=fs)
+
+                def orc(res, good=good, tag=tag, enc_side=enc_side):
+                    side, kind = tag.split("@")[0].split("-")
+                    if res["code"] == 1 or res["code"] >= 900:
+                        return ("an I/O failure is reported as an error value, never a panic", res["outcome"])
+                    if side == "read" and kind == "z":
+                        # a zero-length read is end-of-input by the Read contract, not a failure: the encryptor
+                        # finalises there, the decryptor reports truncation (or, at the probe, success)
+                        if (not enc_side) and not good["out"].startswith(res["out"]):
+                            return ("released bytes are a prefix of the plaintext", "out=" + res["out"][:40].hex())
+                        return None
+                    if not good["out"].startswith(res["out"]):
+                        return ("bytes written under a fault are a prefix of the fault-free output", "out=" + res["out"][:40].hex())
+                    rd = range(20, 30) if enc_side else range(60, 70)
+                    wr = range(30, 40) if enc_side else range(70, 80)
+                    if res["code"] == 0:
+                        # success is allowed only when the failure was a retried interruption and all was written
+                        if not (kind == "i" and res["out"] == good["out"]):
+                            return ("success only after a retried interruption with everything written", "ok out=" + res["out"][:40].hex())
+                    elif kind == "o":
+                        want = rd if side == "read" else wr
+                        if res["code"] not in want:
+                            return ("error identifies the failing side (%s)" % side, res["outcome"])
+                    return None
+                out.append(Case(b.op, oracle=orc, tags=[tag.split("@")[0]], **a))
+        return out
+
+
+class C19(Prop):
+    id = "C19"
+    rule = ("cases: each exported primitive vs its Gallina RFC specification: AEAD seal/open over plaintext lengths x AAD "
+            "lengths at block boundaries (thorough: all 0..130 x 0..40), single-bit flips of ciphertext/tag/nonce/key/AD "
+            "(must be rejected), X25519 on RFC vectors, low-order and non-canonical points and random pairs (symmetry), "
+            "HKDF lengths 1..8160, HMAC/SHA-256 message lengths 0..200, Noise nonce at counters across 64 bits; "
+            "non-trivial = all")
+    assumptions = ["orion is not modelled: its functions are compared with the RFC specifications, not proved equal",
+                   "X25519 commutativity and AEAD unforgeability are not proved"]
+    LOW_ORDER = ["00" * 32, "01" + "00" * 31,
+                 "e0eb7a7c3b41b8ae1656e3faf19fc46ada098deb9c32b1fd866205165f49b800",
+                 "5f9c95bca3508c24b1d0b1559c83ef5b04445cc4581c8e86d8224eddd09f1157",
+                 "ecffffffffffffffffffffffffffffffffffffffffffffffffffffffffffff7f",
+                 "edffffffffffffffffffffffffffffffffffffffffffffffffffffffffffff7f",
+                 "eeffffffffffffffffffffffffffffffffffffffffffffffffffffffffffff7f",
+                 ]
+    LOW_ORDER = LOW_ORDER + [x[:62] + "%02x" % (int(x[62:], 16) | 0x80) for x in LOW_ORDER]
+
+    def cases(self, ctx):
+        rng = ctx.rng
+        out = []
+        key, nonce = ctx.rbytes(32), ctx.rbytes(12)
+        if ctx.thorough():
+            grid = [(p, a) for p in range(0, 131) for a in range(0, 41, 1 if p % 16 in (0, 1, 15) else 8)]
+        else:
+            grid = [(p, a) for p in (0, 1, 15, 16, 17, 63, 64, 65, 127, 128, 129) for a in (0, 1, 15, 16, 17, 40)]
+        seals = []
+        for p, a in grid:
+            c = Case("seal", key=key, nonce=nonce, ad=ctx.rbytes(a), x=ctx.rbytes(p), tags=["seal"])
+            seals.append(c)
+        vlib.run_impl(ctx.bin, seals)
+        for c in seals:
+            out.append(c)
+            ct = c.result["out"]
+            out.append(Case("open", key=key, nonce=nonce, ad=c.a["ad"], x=ct, oracle=ok_eq(c.a["x"], "open inverts seal"), tags=["open"]))
+
+        def rej(r):
+            return None if r["code"] == 51 else ("an altered ciphertext/tag/nonce/key/AD is rejected", r["outcome"])
+        for c in (seals if ctx.thorough() else seals[::6]):
+            ct = c.result["out"]
+            bit = rng.randrange(len(ct) * 8)
+            out.append(Case("open", key=key, nonce=nonce, ad=c.a["ad"], x=flip(ct, bit), oracle=rej, tags=["flip-ct"]))
+            out.append(Case("open", key=flip(key, rng.randrange(256)), nonce=nonce, ad=c.a["ad"], x=ct, oracle=rej, tags=["flip-key"]))
+            out.append(Case("open", key=key, nonce=flip(nonce, rng.randrange(96)), ad=c.a["ad"], x=ct, oracle=rej, tags=["flip-nonce"]))
+            if c.a["ad"]:
+                out.append(Case("open", key=key, nonce=nonce, ad=flip(c.a["ad"], rng.randrange(len(c.a["ad"]) * 8)), x=ct, oracle=rej, tags=["flip-ad"]))
+            out.append(Case("open", key=key, nonce=nonce, ad=c.a["ad"] + b"\x00", x=ct, oracle=rej, tags=["ext-ad"]))
+        for n in [0, 1, 255, 256, 2 ** 32 - 1, 2 ** 32, 2 ** 63, 2 ** 64 - 2] + [rng.getrandbits(64) % (2 ** 64 - 1) for _ in range(12)]:
+            out.append(Case("nseal", key=key, n=n, ad=b"x", x=b"noise", tags=["nonce"]))
+        # X25519
+        pairs = keypairs(ctx, 4 if not ctx.thorough() else 16)
+        for i in range(0, len(pairs), 2):
+            (a, A), (b, B) = pairs[i], pairs[i + 1]
+            ca, cb = Case("x25519", k=a, u=B, tags=["dh"]), Case("x25519", k=b, u=A, tags=["dh"])
+            vlib.run_impl(ctx.bin, [ca, cb])
+            sh = ca.result["out"]
+            cb.expect_fn = (lambda r, sh=sh: None if r["out"] == sh and r["code"] == 0 else ("DH is symmetric", r["outcome"]))
+            out += [ca, cb, Case("xpub", k=a, tags=["xpub"])]
+        for u in self.LOW_ORDER:
+            for k in ([pairs[0][0]] if not ctx.thorough() else [p[0] for p in pairs[:3]]):
+                out.append(Case("x25519", k=k, u=bytes.fromhex(u),
+                                oracle=(lambda r: None if r["code"] == 83 else ("all-zero shared secret is an error", r["outcome"])),
+                                tags=["low-order"]))
+        out.append(Case("x25519", k=bytes.fromhex("a546e36bf0527c9d3b16154b82465edd62144c0ac1fc5a18506a2244ba449ac4"),
+                        u=bytes.fromhex("e6db6867583030db3594c1a424b15f7c726624ec26b3353b10a903a6d0ab1c4c"),
+                        oracle=ok_eq(bytes.fromhex("c3da55379de9c6908e94ea4df28d084f32eccf03491c71f754b4075577a28552"), "RFC 7748 5.2"),
+                        tags=["rfc-vector"]))
+        # HKDF / HMAC / SHA-256
+        for n in ([1, 31, 32, 33, 64, 255] + ([8160] if ctx.thorough() else [1000])):
+            out.append(Case("hkdf", salt=ctx.rbytes(rng.choice([0, 1, 32, 100])), ikm=ctx.rbytes(rng.choice([0, 22, 80])),
+                            info=ctx.rbytes(rng.choice([0, 10, 100])), n=n, tags=["hkdf"]))
+        for n in (range(0, 201) if ctx.thorough() else list(range(0, 70)) + [119, 120, 127, 128, 129, 200]):
+            out.append(Case("sha256", m=ctx.rbytes(n), tags=["sha256"]))
+            if n % 3 == 0:
+                out.append(Case("hmac", k=ctx.rbytes(rng.choice([0, 1, 32, 64, 65, 100])), m=ctx.rbytes(n), tags=["hmac"]))
+        return out
+
+
+for cls in (C01, C02, C06, C09, C10, C19):
+    REGISTRY[cls.id] = cls()
